@@ -1,6 +1,8 @@
 // ---- bytes crate: BytesMut / Bytes seen through their readable contents (view = Seq<u8>) ----
 // Capacity is not part of the view: reserve() is observably a no-op (A-bytes-reserve). The ghost
 // `reserve_bound` lets a unit state "never reserve more than the configured limit" as a precondition (negative = no budget imposed).
+// anything that can be read as a run of bytes (bytes::Buf seen through ALL its remaining bytes, AsRef<[u8]>, ...)
+pub trait HasBytes { spec fn bytes_view(&self) -> Seq<u8>; }
 pub struct BytesMut { pub v: Vec<u8>, pub reserve_bound: Ghost<int> }
 #[derive(Debug)]
 pub struct Bytes { pub v: Vec<u8> }
@@ -25,6 +27,7 @@ impl vstd::std_specs::convert::FromSpecImpl<Vec<u8>> for Bytes {
     open spec fn from_spec(v: Vec<u8>) -> Self { Bytes { v } }
 }
 impl From<Vec<u8>> for Bytes { fn from(v: Vec<u8>) -> (r: Bytes) { Bytes { v } } }
+impl HasBytes for Bytes { open spec fn bytes_view(&self) -> Seq<u8> { self@ } }
 impl BytesMut {
     pub open spec fn view(&self) -> Seq<u8> { self.v@ }
     // A-bytes-01: remaining()/len() are the number of readable bytes (an allocation never exceeds isize::MAX)
@@ -65,10 +68,10 @@ impl BytesMut {
         ensures final(self)@ == (if len <= old(self)@.len() { old(self)@.take(len as int) } else { old(self)@ }),
             final(self).reserve_bound == old(self).reserve_bound
     { unimplemented!() }
-    // A-bytes-06: put(Bytes) appends
+    // A-bytes-06: BufMut::put(src: impl Buf) appends ALL remaining bytes of src (contiguous or not)
     #[verifier::external_body]
-    pub fn put(&mut self, b: Bytes)
-        ensures final(self)@ == old(self)@ + b@, final(self).reserve_bound == old(self).reserve_bound
+    pub fn put<T: HasBytes>(&mut self, b: T)
+        ensures final(self)@ == old(self)@ + b.bytes_view(), final(self).reserve_bound == old(self).reserve_bound
     { unimplemented!() }
     // A-bytes-07: advance_mut exposes `cnt` reserved (uninitialised) bytes; their values are arbitrary
     #[verifier::external_body]
@@ -82,6 +85,11 @@ impl BytesMut {
         requires at <= old(self)@.len()
         ensures r@ == old(self)@.take(at as int), final(self)@ == old(self)@.skip(at as int),
             final(self).reserve_bound == old(self).reserve_bound
+    { unimplemented!() }
+    // A-bytes-16: split() hands out everything and leaves the buffer empty
+    #[verifier::external_body]
+    pub fn split(&mut self) -> (r: BytesMut)
+        ensures r@ == old(self)@, final(self)@ == Seq::<u8>::empty(), final(self).reserve_bound == old(self).reserve_bound
     { unimplemented!() }
     // A-bytes-15: Buf::advance drops the first cnt bytes (panics beyond the length)
     #[verifier::external_body]
@@ -129,3 +137,22 @@ impl<'a> BufMut for &'a mut [u8] {
     #[verifier::external_body]
     fn put_u32(&mut self, v: u32) { unimplemented!() }
 }
+
+// A-bytes-29: a general bytes::Buf (possibly non-contiguous, e.g. Chain): view = ALL remaining bytes; chunk() is only a
+// non-empty prefix of them; copy_to_bytes(n) takes the first n (panics beyond remaining())
+pub struct BufData { pub v: Ghost<Seq<u8>>, pub first: Ghost<int> }
+impl BufData {
+    pub open spec fn view(&self) -> Seq<u8> { self.v@ }
+    #[verifier::external_body]
+    pub fn remaining(&self) -> (r: usize) ensures r == self@.len() { unimplemented!() }
+    #[verifier::external_body]
+    pub fn has_remaining(&self) -> (r: bool) ensures r == (self@.len() > 0) { unimplemented!() }
+    #[verifier::external_body]
+    pub fn chunk(&self) -> (r: &[u8]) ensures r@.len() <= self@.len(), r@ == self@.take(r@.len() as int), self@.len() > 0 ==> r@.len() > 0 { unimplemented!() }
+    #[verifier::external_body]
+    pub fn copy_to_bytes(&mut self, n: usize) -> (r: Bytes)
+        requires n <= old(self)@.len()
+        ensures r@ == old(self)@.take(n as int), final(self)@ == old(self)@.skip(n as int)
+    { unimplemented!() }
+}
+impl HasBytes for BufData { open spec fn bytes_view(&self) -> Seq<u8> { self@ } }
